@@ -1,5 +1,5 @@
 """C09 (partial) — prover-supplied hints cannot change results.
-Engine D: the advice-consuming instructions u32clz / u32ctz / u32clo / u32cto / ilog2 are assembled by
+Engine D: the advice-consuming instructions u32clz / u32ctz / u32clo / u32cto / ilog2 / ext2inv are assembled by
 the real assembler and executed symbolically (real operation bodies from the processor's MIR) with an
 ADVERSARIAL host: every value popped from the advice stack is a fresh symbolic field element.  Per
 completed path z3 decides that the result is the mathematically correct one (and the rest of the
@@ -21,12 +21,14 @@ import z3
 sys.path.insert(0, os.path.dirname(os.path.abspath(__file__)))
 import c05_instr  # noqa: E402
 from c05_instr import airq, ispec, masmsym, opsum  # noqa: E402
+from field import P  # noqa: E402
 from common import Verdict, repo_fingerprint, save_replay, tier, write_evidence  # noqa: E402
 
 PROP = "C09"
 NO_SYMBOLIC_HINT = {"ilog2"}
-QUICK = ["u32clz", "ilog2"]
-THOROUGH = ["u32clz", "u32ctz", "u32clo", "u32cto", "ilog2"]
+NO_HINT_SPLIT = {"ext2inv"}  # the hint is a field-extension element: only the fully symbolic run applies
+QUICK = ["u32clz", "u32ctz", "ilog2", "ext2inv"]
+THOROUGH = ["u32clz", "u32ctz", "u32clo", "u32cto", "ilog2", "ext2inv"]
 
 
 def _worker(args):
@@ -45,8 +47,10 @@ def _worker(args):
 
 
 def operand_class(name, v0, n):
-    """operands whose honest hint is n (the result itself)"""
+    """operands whose honest hint is n (the result itself); empty for values no operand can have"""
     T32 = 2**32
+    if n > (63 if name == "ilog2" else 32):
+        return z3.BoolVal(False)
     if name == "u32clz":
         return v0 == 0 if n == 32 else z3.And(v0 >= 2**(31 - n), v0 < 2**(32 - n))
     if name == "u32clo":
@@ -89,13 +93,43 @@ def _honest_worker(args):
         V.add(tag, "not-covered" if n is None else "inconclusive", detail=f"{type(e).__name__}: {e}"[:300])
         return V.obligations, V.violations
 
+    class BVFallback:
+        """z3 (integer encoding) first; `unknown` goes to the exact bit-vector back end"""
+
+        def __init__(self, res, extra):
+            self.s = z3.Solver()
+            self.s.set("timeout", 60000)
+            self.s.add(res.ctx.side)
+            self.s.add(res.pc)
+            self.s.add(extra)
+            self.asserts = list(self.s.assertions())  # read before check(): z3 may add internal skolems afterwards
+            self.env = None
+
+        def check(self):
+            r = self.s.check()
+            if r != z3.unknown:
+                return r
+            import bvquery
+            st, info = bvquery.check_bv(self.asserts, timeout_ms=240000)
+            if st == "unsat":
+                return z3.unsat
+            if st == "sat":
+                self.env = info
+                return z3.sat
+            return z3.unknown
+
+        def model(self):
+            if self.env is not None:
+                env = self.env
+
+                class M:
+                    def eval(self, v, model_completion=True):
+                        return z3.IntVal(env.get(str(v), 0))
+                return M()
+            return self.s.model()
+
     def solver_for(res, extra):
-        s = z3.Solver()
-        s.set("timeout", 120000)
-        s.add(res.ctx.side)
-        s.add(res.pc)
-        s.add(extra)
-        return s
+        return BVFallback(res, extra)
 
     for pi, res in enumerate(paths):
         if res.outcome != "ok":
@@ -183,9 +217,11 @@ def confirm_dishonest(meta, name, res, env, oname, V, hint=None):
 def hint_values(name, quick):
     hi = 63 if name == "ilog2" else 32
     lo = 0
+    # values above the admissible range are run as concrete hints too (they must never complete): concrete
+    # hints fold the exponentiation chain and are decided reliably, unlike the symbolic out-of-range run
     if quick:
-        return sorted({lo, 1, hi // 2, hi - 1, hi}) + [None]
-    return list(range(lo, hi + 1)) + [None]
+        return sorted({lo, 1, hi // 2, hi - 1, hi, hi + 1, 63, 64}) + [None]
+    return list(range(lo, 66)) + [2**32, P - 1] + [None]
 
 
 def main():
@@ -206,19 +242,21 @@ def main():
         else:
             todo.append((n, a["root"]))
     interp = opsum.make_interp(max_paths=2000)
+    if tier() != "quick":
+        interp.timeout_ms, interp.feas_first_ms = 60000, 10000  # the thorough tier can wait for the solver
     c05_instr._W.update(meta=meta, interp=interp)
     import multiprocessing as mp_
     n = int(os.environ.get("VERIF_JOBS", "0")) or max(1, min(12, (os.cpu_count() or 2) - 2))
     # fully symbolic hint: explored for the u32 bit-counting instructions; for ilog2 the exploration does not
     # finish within the caps (measured: > 30 minutes), its hints are covered one by one below
-    sym = [t for t in todo if t[0] not in NO_SYMBOLIC_HINT and (tier() != "quick" or only)]
+    sym = [t for t in todo if t[0] not in NO_SYMBOLIC_HINT and (tier() != "quick" or only or t[0] in NO_HINT_SPLIT)]
     results = []
     if sym:
         with mp_.get_context("fork").Pool(min(n, len(sym))) as pool:
             results = pool.map(_worker, sym, chunksize=1)
     with mp_.get_context("fork").Pool(n) as pool:
         hres = pool.map(_honest_worker, [(nm, root, h) for nm, root in todo for h in hint_values(nm, tier() == "quick")
-                                         if not (h is None and nm in NO_SYMBOLIC_HINT)], chunksize=1)
+                                         if not (h is None and nm in NO_SYMBOLIC_HINT) and nm not in NO_HINT_SPLIT], chunksize=1)
     hint_runs = len(hres)
     for obs, vio in hres:
         V.obligations += obs
@@ -234,6 +272,10 @@ def main():
             cov[k_] = cov.get(k_, 0) + v_ if not isinstance(v_, list) else cov.get(k_, []) + v_
     names_ = " ".join(o["name"] for o in V.obligations)
     for nme, _ in todo:
+        if nme in NO_HINT_SPLIT:
+            okx = f"instr:{nme}#" in names_ and "result * operand = 1" in names_
+            V.add(f"{nme}: vacuity guard - completed paths with the inverse relation exist", "discharged" if okx else "inconclusive")
+            continue
         ok = f"hint:{nme}[" in names_ and "a completed path implies" in names_
         dish = f"hint:{nme}[" in names_ and "the error path is not taken" in names_
         V.add(f"{nme}: vacuity guard - completed paths and rejected-hint paths both exist", "discharged" if ok and dish else "inconclusive")
@@ -246,7 +288,7 @@ def main():
         functions_encoded=["assembler expansion of the instruction (real assembler, replay binary)", "Process::execute_op and the op_* bodies it reaches (MIR)"],
         modelled_natively=["advice provider: every popped value is a fresh symbolic field element (adversarial host)", "stack / system components (abstract models validated in C05)"],
         bounds="one instruction on a symbolic stack of depth 18; operand below 2^32 (u32 instructions) / any non-zero field element (ilog2)",
-        not_covered="ilog2 with a hint above 63 (the symbolic-hint exploration does not finish; every hint 0..63 is covered one by one), ext2inv/ext2div, mtree_get/mtree_set/mtree_verify (RPO), adv_push/adv_loadw/adv_pipe ordering, honest-host injectors (decorators are not part of the executed MAST model); "
+        not_covered="ext2div (same verification as ext2inv after a multiplication), ilog2 with a hint above 63 (the symbolic-hint exploration does not finish; every hint 0..63 is covered one by one), mtree_get/mtree_set/mtree_verify (RPO), adv_push/adv_loadw/adv_pipe ordering, honest-host injectors (decorators are not part of the executed MAST model); "
                     "u64 division with adversarial advice is decided under C16",
         sources_fingerprint=repo_fingerprint(["assembly/src/assembler/instruction/u32_ops.rs", "assembly/src/assembler/instruction/field_ops.rs", "processor/src/operations"]),
         evaluations=len(V.obligations), distinct_nontrivial=c.get("discharged", 0), rule="one obligation per (instruction, path, stack item / failure condition)",
